@@ -872,7 +872,13 @@ func (r *lmRun) doGetOffer(op *lmOp) (*lmOffer, bool) {
 		o   *libmem.Offer
 		err error
 	)
+	nz := len(r.a.SortZones(nil))
 	p, site := Guard(func() { o, err = r.a.GetOffer(req) })
+	if !r.twin && len(r.a.SortZones(nil)) > nz {
+		// evidence only (not an oracle): GetOffer left zone objects without users behind; they take part in
+		// later overcommit checks, which is what the hidden-state:* signatures observe behaviourally
+		r.count("getoffer_left_empty_zones")
+	}
 	after := r.snap()
 	r.cur = after
 	if !r.quiet {
